@@ -708,3 +708,7 @@ package pipeline
 //@     requires e == event && rangeindex > lastIdx && event.kind != eventKindChildParent
 //@     preserves Batch
 //@     set lastIdx := rangeindex
+
+//@ func (*Event).IsRegularKind
+//@   pure
+//@   ensures result == (e.kind == EventKindRegular)
